@@ -65,9 +65,11 @@ impl ZodBindingsGenerator {
             .collect();
 
         let enum_values = variants.join(", ");
+        // Like object schemas, enums export the inferred type next to the schema so that
+        // `types.<Name>` resolves in commands.ts / events.ts
         format!(
-            "export const {}Schema = z.enum([{}]);\n\n",
-            name, enum_values
+            "export const {}Schema = z.enum([{}]);\n\nexport type {} = z.infer<typeof {}Schema>;\n\n",
+            name, enum_values, name, name
         )
     }
 
